@@ -330,4 +330,82 @@ theorem createFailureLinksFixed_no_leak (fuel : Nat) (root : Trie) (h : Heap) :
 
 example : (createFailureLinksFixed (fun k => k == 1) 10 (.node [.node [], .node []]) ⟨0, []⟩) = (.insufficientMemory, ⟨2, []⟩) := by decide
 
+/-! ### verification loops of the block scanner and the fast-exec position list (structure read from the source) -/
+
+/-- **The first failing verification is what the block scan returns**: with `GOTO_EXIT_ON_ERROR` around every
+    `yr_scan_verify_match` the loop over a state's match list succeeds iff every verification succeeded — an
+    allocation failure in an earlier entry can not be overwritten by a later success. -/
+theorem verify_loop_reports_errors (rs : List Res) :
+    verifyLoop true .ok rs = .ok ↔ ∀ r ∈ rs, r = .ok := by
+  induction rs with
+  | nil => simp [verifyLoop]
+  | cons r rs ih =>
+    simp only [verifyLoop, ↓reduceIte, List.mem_cons, forall_eq_or_imp]
+    by_cases hr : r = .ok
+    · simp [hr, ih]
+    · simp [hr]
+
+/-- … whereas keeping only the last result (tested once after the loop) swallows an earlier failure.
+    Witness: the first of two verifications runs out of memory. -/
+theorem verify_loop_last_result_swallows :
+    ∃ rs : List Res, (∃ r ∈ rs, r ≠ .ok) ∧ verifyLoop false .ok rs = .ok :=
+  ⟨[.insufficientMemory, .ok], by decide, by decide⟩
+
+/-- **yr_re_fast_exec keeps every position reachable**: with the tail pointer maintained inside the insertion
+    loop, for every failure oracle, every number of insertions, every pool content and every list whose `last`
+    designates its final node, a failed `_yr_re_fast_exec_position_create` hands the WHOLE list back to the pool
+    (no node is cut off), and on success `last` still designates the final node. -/
+theorem insertLoop_no_orphans (k ip : Nat) (st : FastExec) (h : Heap)
+    (hl : st.lastIdx + 1 = st.list.length) (hip : ip ≤ st.lastIdx) :
+    (insertLoop fail true k ip st h).1.2.2 = [] ∧
+    ((insertLoop fail true k ip st h).1.1 = .ok →
+      (insertLoop fail true k ip st h).1.2.1.lastIdx + 1 = (insertLoop fail true k ip st h).1.2.1.list.length) := by
+  induction k generalizing ip st h with
+  | zero => simp [insertLoop, hl]
+  | succ k ih =>
+    simp only [insertLoop]
+    have hpc : ∀ r, positionCreate fail st h = r → r.1.2.list = st.list ∧ r.1.2.lastIdx = st.lastIdx := by
+      intro r hr
+      unfold positionCreate at hr
+      cases hp : st.pool with
+      | nil =>
+        rw [hp] at hr
+        cases ha : alloc fail h with
+        | mk o h1 => rw [ha] at hr; cases o <;> (simp only at hr; subst hr; exact ⟨rfl, rfl⟩)
+      | cons p ps => rw [hp] at hr; simp only at hr; subst hr; exact ⟨rfl, rfl⟩
+    cases e : positionCreate fail st h with
+    | mk r h1 =>
+      obtain ⟨o, st1⟩ := r
+      have hs := hpc _ e
+      simp only at hs
+      cases o with
+      | none =>
+        simp only [destroyList]
+        refine ⟨?_, fun hx => by cases hx⟩
+        apply List.drop_eq_nil_of_le
+        rw [hs.1, hs.2]; omega
+      | some b =>
+        simp only
+        apply ih
+        · simp only [List.length_append, List.length_take, List.length_cons, List.length_drop, hs.1, hs.2, if_true, ↓reduceIte, Nat.min_def]
+          (repeat' split) <;> omega
+        · simp only [hs.2, if_true, ↓reduceIte]
+          (repeat' split) <;> omega
+
+/-- With the tail pointer repaired only after the loop a failure in the middle cuts nodes off the list: they are in
+    neither the list nor the pool (never freed). Witness: one node in the list, the second creation fails. -/
+theorem insertLoop_stale_tail_orphans :
+    ∃ (fail : Nat → Bool) (k ip : Nat) (st : FastExec) (h : Heap), st.lastIdx + 1 = st.list.length ∧
+      (insertLoop fail false k ip st h).1.1 = .insufficientMemory ∧ (insertLoop fail false k ip st h).1.2.2 ≠ [] :=
+  ⟨fun i => i == 1, 3, 0, ⟨[], [100], 0⟩, ⟨0, [100]⟩, by decide, by decide, by decide⟩
+
+example : (insertLoop (fun i => i == 1) true 3 0 ⟨[], [100], 0⟩ ⟨0, [100]⟩).1 = (.insufficientMemory, ⟨[100, 0], [], 0⟩, []) := by decide
+
+/-- The source has the structure both theorems are about: every `yr_scan_verify_match` call of
+    `_yr_scanner_scan_mem_block` sits in GOTO_EXIT_ON_ERROR/FAIL_ON_ERROR, and `yr_re_fast_exec` updates `last`
+    inside the insertion loop (facts regenerated by translators/oomsites.py). -/
+theorem gen_oom_sites :
+    Gen.OomSites.verifyStopsAtFirstError = true ∧ Gen.OomSites.fastExecTailInLoop = true ∧ Gen.OomSites.unparsedItems = [] := by decide
+
+
 end YaraModel.AllocM
